@@ -98,7 +98,11 @@ CHECKS["C09"] = dict(
         "by-value containment and arbitrary pointer / signature references, the include-once expansion of any header declares before it uses) and the check is evaluated on the include graph parsed from the real headers of every run. "
         "Whether output compiles is decided by the real toolchains on four corpora (generated grammar bridge, a bridge with cyclic references / "
         "namespaces / renames / keyword-named parameters, feature_tests, example): rustc on the macro expansion, gcc -std=c11 -fsyntax-only on each C "
-        "header alone and all headers in random orders, g++ c++17 and c++20 likewise, node --check on every .mjs, include/import targets exist.",
+        "header alone and all headers in random orders, g++ c++17 and c++20 likewise, node --check on every .mjs, include/import targets exist. "
+        "Identifier escaping is modelled too (Escape/Model.v; the C / C++ / JS / Python keyword tables are regenerated from the formatters on every run): "
+        "C09_escaped_is_not_a_keyword, C09_cpp_table_extends_c, C09_escape_collisions_are_the_recorded_class (two names collide iff one is a keyword k and "
+        "the other k_), C09_escape_injective_refuted; tied to the code by a bridge whose parameters are named after, and whose methods are renamed to, "
+        "every word of the tables: emitted names compared in Coq, files compiled / parsed.",
    note="Partial: the grammars of C/C++/JS/Rust are not modelled (the theorem is about declaration order under include guards, the compilers "
         "decide everything else). Two recorded findings (known_findings.txt): keyword-escape collision, parameter named `this`.",
    design="§5 C09")
@@ -117,7 +121,9 @@ CHECKS["C05"] = dict(
         "callback parameters); C05_inputs / C05_outputs / C05_returns / C05_callback_params prove the two equivalent for all types (unbounded nesting) "
         "and all flag settings, C05_write_only_last the DiplomatWrite rule. Tied to the code by exhaustively enumerating the type grammar to depth 2 x 6 "
         "positions as tiny bridges through the real CLI for all seven backends' support profiles and both unsafe_references_in_callbacks settings "
-        "(~13k kernel-checked goals), plus the lifetime rules in every position of a return type, plus error-context checks.",
+        "(~13k kernel-checked goals), plus the lifetime rules in every position of a return type, plus error-context checks. "
+        "C05_elided_return_rejected (Lifetimes/Elision.v, the model of core/src/hir/elision.rs): an elided return lifetime whose source is not a named "
+        "lifetime is refused by validation, whatever else the signature contains.",
    note="Trusted: Coq kernel+vm_compute; hand transcription in Gate/Model.v; gen/Tables.v translator for the support flags; traits not enumerated; "
         "self-parameter and ZST-method rules modelled but not enumerated.",
    design="§5 C05")
@@ -126,7 +132,9 @@ CHECKS["C15"] = dict(
         "(C15_outputs_enumerated / C15_inputs_enumerated / C15_returns_enumerated via the Gate equivalence theorems), so the finite witness enumeration "
         "contains every accepted shape literally. Each witness (position x type, ~1.9k) and a set of grammar-wide generated modules is run through the "
         "real CLI for all seven backends and config variants; any panic after lowering is a violation keyed by backend and panic site. 18 pre-existing "
-        "panic sites are recorded in known_findings.txt; the optional-slice/Kotlin crash was repaired in /repo.",
+        "panic sites are recorded in known_findings.txt; the optional-slice/Kotlin crash was repaired in /repo. "
+        "C15_docs_* (Docs/Model.v): the documentation renderer is total. C15_lowered_lifetimes_in_range (Lifetimes/Elision.v): every lifetime lowering hands "
+        "to a backend for a method lies inside the method's LifetimeEnv (fmt_lifetime's out-of-range panic is unreachable for them).",
    note="Partial: the backends' dispatch code (60+ unreachable!/panic! sites) is not modelled; absence of panics is only observed on the witnesses, and "
         "uniformity within a shape class is assumed. Trusted: Coq kernel, Gate transcription, CLI runner.",
    design="§5 C15")
@@ -147,7 +155,10 @@ CHECKS["C08"] = dict(
         "field order / surrounding memory), C08_write_in_bounds, C08_flat_js_is_documented (the legacy argument list the JS builds = the documented ABI "
         "rule, for every struct without zero-sized members and outside the one excluded corner). Tied to the code by executing the generated JS (js.abi legacy and spec) in node "
         "against a mock wasm module: argument lists, bytes written, values read back from repr(C) bytes, receive-buffer size/alignment; each "
-        "observation is compared with an independent python repr(C)/ABI-doc implementation and with the model in Coq.",
+        "observation is compared with an independent python repr(C)/ABI-doc implementation and with the model in Coq. "
+        "Layout/Result.v: the receive buffer of Option<S> / Result<S, E> returns is laid out like repr(C) DiplomatResult (C08_result_buffer_is_reprC; "
+        "C08_result_buffer_unrepaired_refuted + C08_result_buffer_repair_is_conservative record the defect repaired in /repo, ebd2380); exercised for every "
+        "struct with five error structs of alignment 1..8, both outcomes, both ABIs.",
    note="No wasm32 Rust target in the sandbox: the legacy flattened argument list is checked against docs/wasm_abi_quirks.md, not rustc. Slices, "
         "opaque fields and 128-bit integers are not generated; one corner (2-scalar struct directly inside an aggregate with a union) is excluded. "
         "Trusted: Coq kernel+vm_compute, hand transcription, python spec, node.",
@@ -161,6 +172,10 @@ CHECKS["C04"] = dict(
         "suffices), C04_env_is_closure_of_written_bounds, C04_definition_bounds_are_recorded, C04_outlives_iff_recorded, C04_borrow_map_keys/entry, "
         "C04_struct_accessor_exact (JS/Dart _fieldsForLifetime accessors yield exactly the fields carrying the lifetime, any nesting), "
         "C04_spec_executable (the specification has an executable form, evaluated against rustc in Coq). "
+        "Lifetimes/Elision.v models core/src/hir/elision.rs (written -> HIR lifetimes, elision source state machine, Self cache, padding): "
+        "C04_elision_source_is_rusts_rule / _exists_iff, C04_elided_return_edges (an accepted method with elided return lifetimes gets exactly the edges "
+        "Rust requires for the explicit spelling), C04_lowering_panics_only_without_source; every lowered lifetime of every accepted method is compared "
+        "with the model in Coq, elided spellings are validated against rustc. "
         "Tied to the code per run: generated bridges go through the real TypeContext::from_syn and borrowing_param_visitor; acceptance and the "
         "literal borrow_map are compared with the model in Coq, the edge sets with an independent python reading of Rust's rules, that reading "
         "with rustc itself ((r,x) coercion probes), and the js/dart/kotlin/nanobind output is parsed for edge arrays, constructor arguments, "
